@@ -175,6 +175,9 @@ func checkC01(tier string) {
 		if t.has("anon") && plugin != "equal" && plugin != "hash" && plugin != "gostring" {
 			return false // anonymous struct fields are refused by Compare and DeepCopy (a diagnostic: C09)
 		}
+		if t.has("alias") && plugin != "gostring" && plugin != "deepcopy" && plugin != "clone" {
+			return false // an alias of an unexported struct: Equal, Compare and Hash refuse it with a diagnostic (C09)
+		}
 		switch plugin {
 		case "deepcopy":
 			switch t.Kind {
@@ -218,7 +221,7 @@ func checkC01(tier string) {
 				if form == "curried" && pl != "equal" && pl != "compare" {
 					continue
 				}
-				if form == "nested" && (pl == "clone" || pl == "deepcopy" || t.has("anon")) {
+				if form == "nested" && (pl == "clone" || pl == "deepcopy" || t.has("anon") || t.has("alias")) {
 					continue
 				}
 				cases = append(cases, c01RecCase(idf(), t, pl, form))
@@ -228,7 +231,7 @@ func checkC01(tier string) {
 	// list helpers over element types
 	ets, ebound := elemTypes(tier)
 	for _, t := range ets {
-		if t.has("user") || t.has("anon") {
+		if t.has("user") || t.has("anon") || t.has("alias") {
 			continue
 		}
 		cases = append(cases, c01ListCases(idf, t)...)
